@@ -25,6 +25,7 @@ fn main() {
             s.gen("e2-random", s.n(400_000, 12_000_000), || e2::case(e2::W_C09), |c, cx| e2::check(c, Prop::C09, cx));
             let max_len = if s.quick() { 6 } else { 7 };
             s.enumerate("e2-small-scope", e2::small_cases(max_len, &[1, 2]), |c, cx| e2::check(&c.to_case(), Prop::C09, cx));
+            s.gen("file-batch-channel-laws", s.n(100_000, 3_000_000), fsim::e2e::batch_ops, |c, cx| fsim::e2e::check_batch_laws(c, cx));
             s.gen("e7-os-threads", s.n(3_000, 150_000), || e7::workload(8), |c, cx| e7::check(c, Prop::C09, cx));
         },
     )
